@@ -133,9 +133,13 @@ class CellGen:
         if what == 'tandem':
             t = r.choice(TANDEMS)
             kind = 'visual' if t in ('*above', '*below', '*cue', '*Xcue', '*ped', '*Xped', '*rscale:2') else ('contextual' if t in ('*MM120', '*8va', '*X8va') else 'nonvisual')
-            return {'k': 'other', 'kind': kind, 'text': t}
-        kind, pool = table[what]
-        return {'k': 'other', 'kind': kind, 'text': r.choice(pool)}
+        else:
+            kind, pool = table[what]
+            t = r.choice(pool)
+        if header not in ('**kern', '**root') and kind in ('contextual', 'visual', 'nonvisual'):
+            # not shared structure: a non-kern spine keeps the text under its own category (C18)
+            kind = TEXT_KIND.get(header, ('otherText', None))[0]
+        return {'k': 'other', 'kind': kind, 'text': t}
 
     def comment_cell(self):
         r = self.rng
@@ -289,14 +293,21 @@ def all_cells(doc):
                     yield c
 
 
+def clean(c):
+    """the abstract cell without the harness's own annotations (keys starting with `_`)"""
+    if c['k'] == 'chord':
+        return {'k': 'chord', 'es': [clean(e) for e in c['es']]}
+    return {k: v for k, v in c.items() if not k.startswith('_')}
+
+
 def render_documents(driver, docs):
     """fills c['text'] (rendered by the Lean driver), c['kern'] (expected default export of the cell, from the abstract
     description) and returns the document texts"""
     cells = [c for d in docs for c in all_cells(d)]
-    resp = driver.ask([{'op': 'abs.expect', 'cell': c, 'clef': None} for c in cells])
+    resp = driver.ask([{'op': 'abs.expect', 'cell': clean(c), 'clef': None} for c in cells])
     for c, r in zip(cells, resp):
-        c['text'] = r['text']
-        c['kern'] = r['kern'].get('ok')
+        c['_text'] = r['text']
+        c['_kern'] = r['kern'].get('ok')
     texts = []
     for d in docs:
         lines = []
@@ -304,7 +315,7 @@ def render_documents(driver, docs):
             if row['kind'] == 'global':
                 lines.append(row['text'])
             else:
-                lines.append('\t'.join(c['text'] for c in row['cells']))
+                lines.append('\t'.join(c.get('_text', c.get('text')) for c in row['cells']))
         d['text'] = '\n'.join(lines) + '\n'
         texts.append(d['text'])
     return texts
